@@ -301,6 +301,16 @@ def grid_cases(tier):
                         ]
                         for ops in aligned:
                             yield {"frame": frame, "clear_div": clear, "ops": ops}
+    # (e) a NARROWING astype (values wrap around in int8: the column holds 0..899) followed by a filter on the converted
+    # column: the predicate must see the converted values (a filter pushed below the cast would see the original ones)
+    import itertools
+
+    wide = [{"kind": "key", "name": "a", "card": 900}, {"kind": "float", "name": "b", "nan": 0.0}]
+    for n, seed, (tgt, pred) in itertools.product((1, 3), (1, 2), [("int8", _cmp("gt", _c("a"), 0)), ("int8", _cmp("lt", _c("a"), 100)), ("uint8", _cmp("ge", _c("a"), 128)),
+                                                                      ("int16", _cmp("gt", _c("a"), 500)), ("int32", _cmp("le", _c("a"), 450))]):
+        frame = {"columns": wide, "index": {"kind": "range", "name": None}, "nrows": 14, "seed": seed, "partition": {"how": "npartitions", "n": n, "sort": True}}
+        for tail in ([], [{"op": "getcol", "col": "a"}], [{"op": "project", "cols": ["b"]}]):
+            yield {"frame": frame, "clear_div": False, "ops": [{"op": "astype", "dtypes": {"dict": [["a", tgt]]}}, {"op": "filter", "pred": pred}] + tail}
 
 
 SUBCHECKS = [
